@@ -9,7 +9,7 @@ CONSTANTS
  Defect = "none"
  MaxFeeds = 3
  MaxDials = 2
- MaxTime = 2
+ MaxTime = 1
  MaxSubs = 1
  FeedSet <- FramesMixed
  DialSet <- DialOK
